@@ -2579,6 +2579,13 @@ macro_rules! w17 {
     };
 }
 
+/// tiny widths (below the 6-bit payload of SCALE compact's single-byte mode, below one byte, zero)
+macro_rules! w17s {
+    ($m:ident ! ( $($pre:tt)* )) => {
+        $m!($($pre)* [1, 2, 3, 5, 6])
+    };
+}
+
 fn main() {
     let spec = PropSpec {
         id: "C17",
@@ -2599,25 +2606,45 @@ fn main() {
             install_hook();
             self_tests();
             w17!(reg_gen!(jobs, "slice", 12000, strat_slice, body_slice;));
+            w17s!(reg_gen!(jobs, "slice", 3000, strat_slice, body_slice;));
             w17!(reg_gen!(jobs, "str", 12000, strat_str, body_str;));
+            w17s!(reg_gen!(jobs, "str", 3000, strat_str, body_str;));
             w17!(reg_gen!(jobs, "base", 9000, strat_base, body_base;));
+            w17s!(reg_gen!(jobs, "base", 3000, strat_base, body_base;));
             w17!(reg_gen!(jobs, "bigint", 6000, strat_bigint, body_bigint;));
+            w17s!(reg_gen!(jobs, "bigint", 3000, strat_bigint, body_bigint;));
             w17!(reg_gen!(jobs, "json", 12000, strat_json, body_json;));
+            w17s!(reg_gen!(jobs, "json", 3000, strat_json, body_json;));
             w17!(reg_gen!(jobs, "bincode", 12000, strat_bincode, body_bincode;));
+            w17s!(reg_gen!(jobs, "bincode", 3000, strat_bincode, body_bincode;));
             w17!(reg_gen!(jobs, "rlp", 12000, strat_rlp, body_rlp;));
+            w17s!(reg_gen!(jobs, "rlp", 3000, strat_rlp, body_rlp;));
             w17!(reg_gen!(jobs, "alloy_rlp", 12000, strat_rlp, body_alloy_rlp;));
+            w17s!(reg_gen!(jobs, "alloy_rlp", 3000, strat_rlp, body_alloy_rlp;));
             w17!(reg_gen!(jobs, "fastrlp03", 12000, strat_rlp, body_fastrlp03;));
+            w17s!(reg_gen!(jobs, "fastrlp03", 3000, strat_rlp, body_fastrlp03;));
             w17!(reg_gen!(jobs, "fastrlp04", 12000, strat_rlp, body_fastrlp04;));
+            w17s!(reg_gen!(jobs, "fastrlp04", 3000, strat_rlp, body_fastrlp04;));
             w17!(reg_gen!(jobs, "scale_fixed", 12000, strat_scale_fixed, body_scale_fixed;));
+            w17s!(reg_gen!(jobs, "scale_fixed", 3000, strat_scale_fixed, body_scale_fixed;));
             w17!(reg_gen!(jobs, "scale_compact", 12000, strat_scale_compact, body_scale_compact;));
+            w17s!(reg_gen!(jobs, "scale_compact", 3000, strat_scale_compact, body_scale_compact;));
             w17!(reg_gen!(jobs, "ssz", 12000, strat_le_fixed, body_ssz;));
+            w17s!(reg_gen!(jobs, "ssz", 3000, strat_le_fixed, body_ssz;));
             w17!(reg_gen!(jobs, "borsh", 12000, strat_le_fixed, body_borsh;));
+            w17s!(reg_gen!(jobs, "borsh", 3000, strat_le_fixed, body_borsh;));
             w17!(reg_gen!(jobs, "der", 12000, strat_der, body_der;));
+            w17s!(reg_gen!(jobs, "der", 3000, strat_der, body_der;));
             w17!(reg_gen!(jobs, "der_raw", 9000, strat_der_raw, body_der_raw;));
+            w17s!(reg_gen!(jobs, "der_raw", 3000, strat_der_raw, body_der_raw;));
             w17!(reg_gen!(jobs, "pg_int", 24000, strat_pg_int, body_pg;));
+            w17s!(reg_gen!(jobs, "pg_int", 3000, strat_pg_int, body_pg;));
             w17!(reg_gen!(jobs, "pg_bin", 18000, strat_pg_bin, body_pg;));
+            w17s!(reg_gen!(jobs, "pg_bin", 3000, strat_pg_bin, body_pg;));
             w17!(reg_gen!(jobs, "pg_text", 24000, strat_pg_text, body_pg;));
+            w17s!(reg_gen!(jobs, "pg_text", 3000, strat_pg_text, body_pg;));
             w17!(reg_gen!(jobs, "pg_numeric", 12000, strat_pg_num, body_pg;));
+            w17s!(reg_gen!(jobs, "pg_numeric", 3000, strat_pg_num, body_pg;));
         },
         |_| Map::new(),
     );
